@@ -218,7 +218,13 @@ def hazards(ctx: Ctx, funcs, clause: str = "S0"):
                     f"form with `{bfi[0]['stride']}`: the row stride must be the number of columns `{bfi[0]['cols']}`; the lookup is "
                     f"only right for square tables") if bfi else "", rel, bfi[0]["node"].lineno if bfi else f.line,
                    sample=[(x["stride"], x["cols"]) for x in fi], nontrivial=False)
-        from rules.dropped import discarded_results, dropped_options, vacuous_any_of_self_comparison
+        from rules.dropped import discarded_results, dropped_options, inplace_on_parameter_views, vacuous_any_of_self_comparison
+        ipv = inplace_on_parameter_views(f)
+        col.ob("G43", clause, f"{where}::no-in-place-operation-on-a-caller's-tensor", not ipv,
+               (f"`{u(ipv[0]['node'])[:70]}` works in place on (a view of) the argument `{ipv[0]['param']}` - basic indexing, contiguous(), "
+                f"view() ... hand back the caller's own storage (contiguous() whenever the layout already is, e.g. a one-row table): the "
+                f"caller's tensor is rewritten, so using the same request again (features, then alignments) gives a different result") if ipv else "",
+               rel, ipv[0]["node"].lineno if ipv else f.line, nontrivial=False)
         va = vacuous_any_of_self_comparison(f)
         if va:
             col.ob("G42", clause, f"{where}::all-equal-test-is-not-vacuous", False,
